@@ -117,8 +117,17 @@ class World:
         self.classes = extract["classes"]
         self.functions = extract["functions"]
         self.short = {}
+        self.alias = {}
         for q, c in self.classes.items():
             self.short.setdefault(c["name"], []).append(q)
+        # classes whose short name is not unique get the alias "<package>/<Name>" (package = component after the top-level one)
+        for nm, qs in list(self.short.items()):
+            if len(qs) > 1:
+                for q in qs:
+                    parts = q.split(".")
+                    alias = f"{parts[1] if len(parts) > 2 else parts[0]}/{nm}"
+                    self.short.setdefault(alias, []).append(q)
+                    self.alias[q] = alias
         self.Ref = z3.DeclareSort("Ref")
         self.Str = z3.DeclareSort("Str")
         self.null = z3.Const("null", self.Ref)
@@ -162,6 +171,8 @@ class World:
         return name in self.classes or len(self.short.get(name, [])) == 1
 
     def short_name(self, qual):
+        if qual in self.alias:
+            return self.alias[qual]
         return self.classes[qual]["name"] if qual in self.classes else qual.rsplit(".", 1)[-1]
 
     def mro(self, qual):
@@ -376,14 +387,14 @@ class World:
         # sidecar declaration wins (most specific class first)
         owner = None
         for q in reversed(mro):  # root-most class that knows the field owns the heap array
-            sn = self.classes[q]["name"]
+            sn = self.short_name(q)
             if fname in api.FIELDS.get(sn, {}) or fname in self.class_field_nodes(q):
                 owner = q
                 break
         if owner is not None:
             kind = None
             for q in mro:
-                sn = self.classes[q]["name"]
+                sn = self.short_name(q)
                 if fname in api.FIELDS.get(sn, {}):
                     kind = api.FIELDS[sn][fname]
                     break
